@@ -18,6 +18,7 @@ From Coq Require Import List Arith NArith ZArith Bool.
 Import ListNotations.
 From SV Require Import C11.AliasIR C11.Values C11.Lemmas C11.LemmasV.
 From SV Require Import C11.History C11.LemmasH C11.Dataset C11.LemmasD.
+From SV Require Import C11.Chunks C11.LemmasC.
 
 (* --- the checker is sound ------------------------------------------------- *)
 
@@ -435,3 +436,82 @@ Example ex_centered_index_space :
   instance_idx_list (ds_frames true ex_frames) = [(0, 1); (0, 2)]%nat /\
   centered_source true ex_frames 1 = Some ex_u2 /\ count_user_nonempty ex_frames = 2%nat.
 Proof. repeat split; reflexivity. Qed.
+
+(* ======================================================================== *)
+(* --- the litdata chunk functions (Chunks.v, round 3) ------------------------ *)
+
+(* what a chunk sample holds of the labelled frame, for every frame, user_instances_only,
+   max_instances and eff_scale: num_instances counts the non-empty considered instances; row j
+   below it is the j-th of them in label order, every keypoint multiplied by eff_scale and missing
+   ones still missing (scaled_missing_iff); every further row is all-NaN padding *)
+Theorem chunk_base_rows : forall uo maxi eff fr,
+  let labs := filter nonempty (considered uo fr) in
+  let b := chunk_base uo maxi eff fr in
+  snd b = length labs /\
+  (forall j lab, nth_error labs j = Some lab -> nth_error (fst b) j = Some (map (scale_kp eff) lab)) /\
+  (forall j row, (snd b <= j)%nat -> nth_error (fst b) j = Some row -> all_missing row = true).
+Proof. exact chunk_base_rows_l. Qed.
+Print Assumptions chunk_base_rows.
+
+(* bottomup_data_chunks / single_instance_data_chunks (max_instances = 1): x eff_scale x scale *)
+Theorem bottomup_chunk_rows : forall uo maxi eff s fr,
+  let labs := filter nonempty (considered uo fr) in
+  let b := bottomup_chunk uo maxi eff s fr in
+  snd b = length labs /\
+  (forall j lab, nth_error labs j = Some lab ->
+     nth_error (fst b) j = Some (map (scale_kp s) (map (scale_kp eff) lab))) /\
+  (forall j row, (snd b <= j)%nat -> nth_error (fst b) j = Some row -> all_missing row = true).
+Proof. exact bottomup_chunk_rows_l. Qed.
+Print Assumptions bottomup_chunk_rows.
+
+(* centroid_data_chunks: computing the centroids and rescaling them leaves the `instances` of the
+   sample exactly as chunk_base_rows describes them — for every anchor choice, every scale, with
+   or without padding rows, anchors present or not (generate_centroids as repaired) *)
+Theorem centroid_chunk_keeps_instances : forall anchor uo maxi eff s fr,
+  fst (centroid_chunk true anchor uo maxi eff s fr) = chunk_base uo maxi eff fr.
+Proof. exact centroid_chunk_keeps_instances_l. Qed.
+Print Assumptions centroid_chunk_keeps_instances.
+
+Theorem centroid_chunk_unfixed_refuted : exists anchor uo maxi eff s fr,
+  fst (centroid_chunk false anchor uo maxi eff s fr) <> chunk_base uo maxi eff fr.
+Proof. exact centroid_chunk_unfixed_refuted_l. Qed.
+Print Assumptions centroid_chunk_unfixed_refuted.
+
+(* centroid j = scale x centroid of row j (anchor keypoint, else bbox midpoint of the labelled
+   keypoints); it is missing exactly for rows without a labelled keypoint (the padding) *)
+Theorem centroid_chunk_centroids : forall fixed anchor uo maxi eff s fr j,
+  nth_error (snd (centroid_chunk fixed anchor uo maxi eff s fr)) j =
+  option_map (fun row => scale_kp s (fst (gen_centroid fixed anchor row)))
+             (nth_error (fst (chunk_base uo maxi eff fr)) j).
+Proof. exact centroid_chunk_centroids_l. Qed.
+Print Assumptions centroid_chunk_centroids.
+
+Theorem centroid_chunk_missing_iff : forall fixed anchor uo maxi eff s fr j row c,
+  nth_error (fst (chunk_base uo maxi eff fr)) j = Some row ->
+  nth_error (snd (centroid_chunk fixed anchor uo maxi eff s fr)) j = Some c ->
+  (c = None <-> all_missing row = true).
+Proof. exact centroid_chunk_missing_iff_l. Qed.
+Print Assumptions centroid_chunk_missing_iff.
+
+(* centered_instance_data_chunks: one crop per non-empty considered instance, in label order,
+   holding that label's keypoints x eff_scale, cut around its own (present) centroid *)
+Theorem centered_chunk_crops : forall anchor uo maxi eff fr,
+  let labs := filter nonempty (considered uo fr) in
+  let cs := centered_chunk true anchor uo maxi eff fr in
+  length cs = length labs /\
+  (forall j lab, nth_error labs j = Some lab ->
+     exists c, nth_error cs j = Some (c, map (scale_kp eff) lab) /\ c <> None /\
+               c = fst (gen_centroid true anchor (map (scale_kp eff) lab))).
+Proof. exact centered_chunk_l. Qed.
+Print Assumptions centered_chunk_crops.
+
+Example ex_centroid_chunk :
+  centroid_chunk true (Some 1%nat) true 2 (QArith_base.Qmake 1%Z 1%positive) (QArith_base.Qmake 1%Z 2%positive)
+    [mklinst true [None; Some (QArith_base.Qmake 4%Z 1%positive, QArith_base.Qmake 6%Z 1%positive)];
+     mklinst true [Some (QArith_base.Qmake 2%Z 1%positive, QArith_base.Qmake 2%Z 1%positive);
+                   Some (QArith_base.Qmake 8%Z 1%positive, QArith_base.Qmake 2%Z 1%positive)]]
+  <> (([], 0%nat), []) /\
+  length (centered_chunk true (Some 1%nat) true 2 (QArith_base.Qmake 1%Z 1%positive)
+    [mklinst true [None; Some (QArith_base.Qmake 4%Z 1%positive, QArith_base.Qmake 6%Z 1%positive)];
+     mklinst true [None; None]]) = 1%nat.
+Proof. split; [vm_compute; discriminate|reflexivity]. Qed.
